@@ -7,11 +7,64 @@ props = [json.loads(l) for l in open(os.path.join(V, 'properties.jsonl'))]
 TECH = 'contract-based deductive verification: VCs generated from the real source by pyvc against sidecar contracts, discharged by z3/cvc5; bounded run-time-contract stand-in on the real code (labelled bounded)'
 
 # id -> (category, text, level_note, design_ref)
+B = ' A bounded run-time-contract driver on the real code runs as stand-in and counter-example finder (labelled bounded, never counted as proved).'
+TB = 'pyvc VC generator; z3 5.1 / cvc5 1.0.3 `unsat` answers; Python semantics as encoded (A-py); history induction meta-argument (DESIGN 4.0); '
+
 CLAIMS = {
+ 'C01': ('other', 'Proved: for all 34 slot-template classes first_token/last_token/pivots are the template terms (so every sub-model spans exactly its children; presence tests are not fooled by falsy children). '
+         'Not yet under contract: ModelBuilder/PostLex (parser.py) and print_model; the lark half (token values concatenate to the input) is an assumed dependency contract.' + B,
+         TB + 'A-lark-0/1 (lexer stream concatenates to the input; tree leaves are the fed tokens); bounded: corpus x both attribution modes x every sub-model x own-class re-parse', '5 C01'),
+ 'C02': ('proof', 'Proved for all inputs: every text setter of the token layer (Token.raw_text/_update_raw_text, SingleValueRawTokenModel.raw_text/value, BlockComment.raw_text/value/indent) and TokenStore.update '
+         'modify only that token\'s _raw_text/size/value fields and the line/column caches of its own block (semantic frame obligations), never a token list, a handle or another token; with C07 (iteration = view) the printed text differs exactly in that token\'s span.' + B,
+         TB + 'codecs parse/fmt uninterpreted (the frame holds for every codec); bounded: every token of the corpus x 5 replacements', '5 C02'),
+ 'C03': ('other', 'Proved: the window postconditions of the store mutators (view\' = view[:a] ++ tokens ++ view[b:], FR frame), of optional_left/right_field._create_node/_remove_node against the abstract store interface, '
+         'the index-table maintenance of filtered views (handle_splice re-establishes RI), and that every pivot is the template term. Not yet under contract: RepeatedNodeWrapper mutators and the node properties (bounded only).' + B,
+         TB + 'abstract store interface restates the proved L0 contracts (bridge not machine-checked); Gap invariant from parsing (A-lark-4); bounded: corpus x every property x list ops at all boundary indices + aliasing-view histories', '5 C03'),
+ 'C04': ('other', 'Proved: every TokenStore observer (get_index/next/prev/first/last/__len__/__iter__/iter) has an empty write set on pre-existing objects; _find_spacing only builds a fresh list. '
+         'Not yet under contract: property getters of L2/L3 and the claim/unclaim family (bounded only).' + B,
+         TB + 'bounded: corpus x read of every public attribute, eq/hash/deepcopy/print, claim/unclaim in all orders and random sequences', '5 C04'),
+ 'C05': ('other', 'Proved: _reattach/clone cover every slot and first/last_token are the template terms for all 34 classes; optional field create/remove put the node into the destination store (value.g_ts is token_store) with the stated window; '
+         '_find_spacing returns a contiguous run of Newline/Whitespace tokens only (a spacing edit cannot swallow a structural token). Not yet under contract: RepeatedNodeWrapper, replace_node, detach (bounded only).' + B,
+         TB + 'lemmas WINDOW/SHIFT are meta-arguments; bounded: executable Valid(root) after every operation of the document driver and after every spacing assignment', '5 C05'),
+ 'C06': ('other', 'Model side proved in part (window + index-table contracts as for C03/C10); that the printed text re-parses to an isomorphic tree is a statement about beancount.lark and lark: assumed (A-lark-2) and checked bounded by re-parsing after every operation.' + B,
+         TB + 'A-lark-2; bounded: re-parse + structural comparison after every document-driver operation', '5 C06'),
  'C07': ('proof', 'Every function of token_store.py that implements the sequence behaviour (24 functions: observers, _splice, _update_block, _merge_blocks, _split_block, _build_blocks, from_tokens, '
          'splice/insert_after/insert_before/replace/remove) is verified against contracts stating Inv and view\' = view[:a] ++ tokens ++ view[b:] for a symbolic load factor L >= 2 and unbounded sizes; '
-         'all obligations are discharged on every run. The property statement follows by induction over the history (DESIGN 4.0). A bounded small-scope differential driver (L in {2,3}) runs as stand-in and counter-example finder.',
-         'pyvc VC generator, z3/cvc5, Python semantics as encoded (A-py), caller preconditions (tokens of this store, distinct offered tokens), history induction meta-argument', '5 C07'),
+         'all obligations are discharged on every run. The property statement follows by induction over the history (DESIGN 4.0).' + B,
+         TB + 'caller preconditions (offered tokens free or of this store, pairwise distinct); bounded: L in {2,3} small-scope differential driver', '5 C07'),
+ 'C08': ('other', 'Proved: the cache conjunct I6 (block.size / last_newline_index = folds over token sizes) for _StoreBlock.rebuild and from_tokens, with the frame lemma; TI (cached token size = size of its text, fresh Position) after every text setter, '
+         'and that _raw_text is only written through Token._update_raw_text; TokenStore.update only touches the caches of the token\'s block. Not yet proved: the cache aspect of update/get_position/_splice fast path (bounded only); Lean lemma tsize_append ties folds to text positions.' + B,
+         TB + 'A-str (count/rfind/len uninterpreted with axioms); bounded: L in {2,3} store driver with positions checked against the concatenated text after every step; document-level token edits', '5 C08'),
+ 'C09': ('other', 'No obligations yet for the CostSpec/Transaction setters (match statements, walrus chains: planned unit l5); the property is decided by the bounded state-machine driver only in this version.' + B,
+         'bounded only: every initial cost form x assignment sequences <= 2 (quick) / 3 (thorough) against the record-of-optionals model, Transaction payee/narration, generic value properties; survives re-parse', '5 C09'),
+ 'C10': ('other', 'Proved for all inputs: _RepeatedValueWrapperUpdateHandler.handle_splice re-establishes the index-table invariant RI (soundness and completeness, stated with the recursive rank function and 6 induction lemmas) for every l <= r, every value list and every table. '
+         'Not yet under contract: the notification postconditions of the raw wrapper mutators and the list/dict semantics of the view methods (bounded only).' + B,
+         TB + 'A-bisect; bounded: every cached view against the same view of a deep copy after every operation, aliasing-view histories', '5 C10'),
+ 'C11': ('other', 'Proved: clone of every template class passes token_store, the clone of every slot in slot order and indent_by; _clone of every token class yields a fresh free token with the same text/value/indent/claimed. '
+         'Not yet under contract: RawTreeModel.__deepcopy__ (id map, from_tokens) - bounded only.' + B,
+         TB + 'bounded: every sub-model of the corpus: equal, exact text, disjoint tokens, valid in own store, edits on either side', '5 C11'),
+ 'C12': ('other', 'Proved: the class invariant VT for abstract codecs (value/raw_text/indent setters, from_value, from_raw_text keep value and text describing each other, refusal before any write). '
+         'Concrete codecs (re.sub, Decimal, strftime, the lark lexer) are outside the verifier: exhaustive/bounded with the real lexer.' + B,
+         TB + 'bounded/exhaustive: Date over a calendar sample (quick) / all dates (thorough), flags, Bool; strings <= 3-4 over the distinguishing alphabet for EscapedString/BlockComment/InlineComment; lexeme acceptance via Parser.parse_token', '5 C12'),
+ 'C13': ('other', 'No obligations yet for the NumberExpr operators (planned unit l5); decided by the bounded driver only in this version.' + B,
+         'bounded only: expression trees of depth <= 1 (quick) / 2 (thorough) x all operators x operand kinds incl. operands attached inside a posting; independent evaluator; re-parse', '5 C13'),
+ 'C14': ('other', 'Proved: auto_claim_comments of every template class claims its own leading, then trailing comment and then every comment-bearing slot exactly once, last slot first. '
+         'Not yet under contract: _claim_comment / claimer (ownership ghost). The correspondence with the documented layout rule depends on lark tokenisation: bounded.' + B,
+         TB + 'A-lark-4; bounded: layouts of <= 3 comment blocks x <= 2 models per level vs an independent implementation of the documented rule; known finding C14-leading-comment-with-different-indentation', '5 C14'),
+ 'C15': ('other', 'Proved (syntactic template obligations): from_children of every template class detaches every slot in slot order into one store, reattaches every slot and passes every slot to the constructor. Parse-back is bounded (A-lark-2).' + B,
+         TB + 'bounded: 27 classes with from_value x all presence subsets of optional arguments (<= 256 per class quick) with representative values, alone and assembled into a File', '5 C15'),
+ 'C16': ('other', 'No obligations yet for editor.py (abstract file-system contracts planned); decided by the bounded driver on a real directory only in this version.' + B,
+         'bounded only (exhaustive over the stated finite space): 6 include graphs x LF/CRLF x 5 path spellings x {none, edit-all, edit-one, remove, add, respell, raise} x recursive/single; bytes and mtime_ns compared', '5 C16'),
+ 'C17': ('other', 'Proved: _find_spacing (for an arbitrary successor function) skips zero-width tokens, then returns exactly the visible tokens of the maximal run of Newline/Whitespace tokens, in order, nothing else in between. '
+         'The four accessor properties that pass store.get_prev/get_next are bounded only.' + B,
+         TB + 'Nbh from parsing (A-lark-4); bounded: corpus x every model/token x both sides x 6-7 spacing strings; two-sides agreement for visible neighbours', '5 C17'),
+ 'C18': ('other', 'No obligations yet for the indent plumbing (meta_item_internal._get_indent etc.); decided by the bounded driver only in this version.' + B,
+         'bounded only: entries and postings x 4 meta layouts x 5 indent_by values x action sequences <= 3 incl. layout changes between two value insertions', '5 C18'),
+ 'C19': ('other', 'Proved: exceptional postconditions (state unchanged) of TokenStore._splice/splice/insert_after/insert_before/replace/remove/from_tokens and of the raw_text setters (parse before write); '
+         'must-refuse posts: a normal return of _splice/splice/replace implies every offered token was free or strictly inside the removed range. Not yet under contract: L2+ refusal sites (bounded only).' + B,
+         TB + 'bounded: every refused call of the document driver, cost/transaction state machines, store re-insertion cases', '5 C19'),
+ 'C20': ('other', 'Proved: _eq of every template class is exactly isinstance(other, C) and every slot equal (and indent_by equal). Not yet under contract: RawTokenModel.__eq__/__hash__, RawTreeModel.__eq__, Repeated._eq (bounded only).' + B,
+         TB + 'bounded: parse twice, deepcopy, token eq/hash, single-token / child / ownership perturbations over the corpus', '5 C20'),
 }
 
 NA_REASON = 'check not built yet (framework under construction; see DESIGN.md section 10)'
